@@ -63,7 +63,7 @@ func CreateEmsgAhead(segStart, segEnd, timescale uint64, perMinute int) (*mp4.Em
 	}
 	emsgID := spliceTime / timescale
 	p := SpliceInsertParams{
-		PtsTime:                    uint64(spliceTime*90000/timescale) % (1 << 33),
+		PtsTime:                    (emsgID * 90000) % (1 << 33), // spliceTime is a multiple of timescale
 		Duration:                   uint64(adDuration * 90000 / timescale),
 		SpliceEventID:              uint32(emsgID),
 		Tier:                       4095,
